@@ -132,7 +132,7 @@ def run(ctx: Ctx):
     quick = ctx.quick()
     s = Stream(ctx, "random trees with internal + external imports x option sets")
     rng = ctx.rng("c10")
-    n = ctx.size(500, 10000)
+    n = ctx.size(1200, 10000)
     done = 0
     while done < n and ctx.left() > 20 and not ctx.violations:
         cases = []
